@@ -43,7 +43,8 @@ RULE = ("case kinds by index mod 16: (0) gate sweep = every named gate and "
         "Controlled(g), daggers of each kind, scalar/sqrt and (a third of the "
         "cases) kets/bras, built layer by layer or as a tensor of two "
         "circuits.  Non-trivial = a circuit with >=3 boxes or a sweep; "
-        "distinct by the written-out spec.")
+        "distinct by the written-out spec."
+        "  Also: every fourth evaluation in a batch next to a mixed and a pure circuit; random unitary QuantumGates of 1-2 qubits.")
 SIZES = {"quick": (16, 160), "thorough": (16, 4000)}
 TIMEOUT = {"quick": 600, "thorough": 5400}
 COVER = {
